@@ -31,6 +31,15 @@ def SPc.afterWg : SPc → Bool
   | .closeSrv | .done => true
   | _ => false
 
+theorem SPc.afterIter_afterMwg (p : SPc) : p.afterIter = true → p.afterMwg = true := by
+  cases p <;> simp [SPc.afterIter, SPc.afterMwg]
+theorem SPc.afterWg_afterMwg (p : SPc) : p.afterWg = true → p.afterMwg = true := by
+  cases p <;> simp [SPc.afterWg, SPc.afterMwg]
+theorem SPc.afterWg_afterIter (p : SPc) : p.afterWg = true → p.afterIter = true := by
+  cases p <;> simp [SPc.afterWg, SPc.afterIter]
+theorem SPc.pend_not_afterIter (p : SPc) (i : Nat) : p = .pend i → p.afterIter = false := by
+  intro h; subst h; rfl
+
 theorem allB_iff (n : Nat) (p : Nat → Bool) : allB n p = true ↔ ∀ i, i < n → p i = true := by
   simp [allB, List.all_eq_true, List.mem_range]
 
@@ -70,6 +79,6 @@ macro "close_case3" : tactic => `(tactic| (
   | (injection h with h; subst h
      constructor <;>
        simp_all [State.setE, State.inTab, Entry.closeIf, Entry.closeSock, Entry.finished, allB_iff, IPc.idx, IPc.deleted_f, IPc.deleted_t] <;>
-       grind [IPc.idx, SPc.afterMwg, SPc.afterIter, SPc.afterWg, Entry.fresh])))
+       grind [IPc.idx, SPc.afterMwg, SPc.afterIter, SPc.afterWg, Entry.fresh, SPc.afterIter_afterMwg, SPc.afterWg_afterMwg, SPc.afterWg_afterIter, SPc.pend_not_afterIter])))
 
 end SSV.RelayLife
